@@ -2,7 +2,7 @@
    SoundRebuild.v) into step facts.  See the summary at the end of the file. *)
 From SE Require Import Slots.SlotMapFacts Group.GroupSound Lang.LangFacts Lang.ShapeFacts Lang.RenameFacts
   EGraph.Model EGraph.ModelFacts EGraph.ModelMachine EGraph.UnionFindFacts EGraph.InvariantFacts
-  EGraph.UnionInvariantFacts EGraph.AddCoversFacts EGraph.MonotoneFacts EGraph.SoundFacts EGraph.SoundSyn
+  EGraph.UnionInvariantFacts EGraph.AddCoversFacts EGraph.MonotoneFacts EGraph.SoundFacts EGraph.SoundUnion EGraph.SoundSyn
   EGraph.SoundNode EGraph.SoundBase.
 From SE Require Import Sem.Deriv Sem.DerivFacts Sem.AlgebraFacts Sem.EgMachine Explain.CheckerFacts.
 Require Import ZArith Lia ZifyBool ZifyN ZifyNat.
@@ -372,7 +372,7 @@ Definition link_rename (E : equations) : Prop :=
 
 (* the statements of the facts assumed in Section Pending, as named propositions *)
 Definition spec_H_shrink : Prop :=
-  forall E fuel from cap s x s', inv3 s -> syn_wf s -> Sound E s -> lcanon s from ->
+  forall E fuel from cap s x s', inv3 s -> syn_wf s -> mod4_ok s -> Sound E s -> lcanon s from ->
     sim E s from (restrict_to cap from) ->
     shrink_slots (union_internal fuel) from cap s = Ok (x, s') -> Sound E s'.
 
@@ -408,8 +408,64 @@ Definition spec_HS_readd : Prop :=
     apply_slotmap false (bij ** m) sh' = Ok n'' ->
     nsound E sB (idapp sB (aid i1)) n''.
 
+(* the same four statements with more premises (hence weaker; these are what Section Pending uses):
+   the structural run invariant mod4_ok (SoundUnion.v) of the states, and two further run invariants
+   kept abstract here: SC (a property of the syntactic nodes that is monotone along `ext` steps, e.g.
+   "the children of every syntactic node are covered") at every state where inv3 is given, and KC
+   (a property of the stored nodes, e.g. "the children of every stored node are covered") at the
+   state where handle_pending starts *)
+Definition spec_HSh_red_x (SC : egraph -> Prop) : Prop :=
+  forall E src s pc1 n2 a b s1, inv3 s -> syn_wf s -> mod4_ok s -> SC s -> Sound E s ->
+    pc_from_src_id s src = Ok pc1 -> find_enode s (fst pc1) = Ok n2 ->
+    pc_congruence pc1 (n2, snd pc1) s = Ok ((a, b), s1) ->
+    sim E s a (restrict_to (sset_inter (values (am a)) (values (am b))) a).
+
+Definition spec_HC_sim_x (SC : egraph -> Prop) : Prop :=
+  forall E src s pc1 sh pc2 ab s1, inv3 s -> syn_wf s -> mod4_ok s -> SC s -> Sound E s ->
+    pc_from_src_id s src = Ok pc1 -> shape s (fst pc1) = Ok sh -> pc_from_shape s (fst sh) = Ok pc2 ->
+    pc_congruence pc1 pc2 s = Ok (ab, s1) -> sim E s (fst ab) (snd ab).
+
+Definition spec_HD_sim_x (SC : egraph -> Prop) : Prop :=
+  forall E src s0 pc1 w vs pn2 w2 s ab s1, inv3 s0 -> syn_wf s0 -> mod4_ok s0 -> SC s0 -> Sound E s0 ->
+    pc_from_src_id s0 src = Ok pc1 -> wshape (fst pc1) = Ok w -> variants s0 (fst pc1) = Ok vs -> In pn2 vs ->
+    wshape pn2 = Ok w2 -> node_eqb (fst w) (fst w2) = true -> ext s0 s ->
+    pc_congruence pc1 (pn2, snd pc1) s = Ok (ab, s1) -> sim E s0 (fst ab) (snd ab).
+
+Definition spec_HS_readd_x (SC KC : egraph -> Prop) : Prop :=
+  forall E s sh i c bij0 src nd u1 sA cA enode0 i0 enode i1 sB sh' bij m sC n'',
+    inv3 s -> syn_wf s -> mod4_ok s -> SC s -> KC s -> Sound E s ->
+    na_get (hashcons s) sh = Some i -> get_class s i = Ok c -> na_get (c_nodes c) sh = Some (bij0, src) ->
+    apply_slotmap false bij0 sh = Ok nd ->
+    nsound E s (idapp s i) nd ->
+    raw_remove_from_class i sh s = Ok (u1, sA) -> get_class sA i = Ok cA ->
+    find_enode sA nd = Ok enode0 -> find_applied_id sA {| aid := i; am := identity (c_slots cA) |} = Ok i0 ->
+    hp_loop 100 src enode0 i0 sA = Ok ((enode, i1), sB) ->
+    inv3 sB -> syn_wf sB -> mod4_ok sB -> SC sB -> Sound E sB ->
+    shape sB enode = Ok (sh', bij) -> lookup_internal sB (sh', bij) = Ok None ->
+    fill_fresh (values bij) (inv (am i1)) sB = Ok (m, sC) ->
+    apply_slotmap false (bij ** m) sh' = Ok n'' ->
+    nsound E sB (idapp sB (aid i1)) n''.
+
+Lemma spec_HSh_red_weaken : forall SC, spec_HSh_red -> spec_HSh_red_x SC.
+Proof. intros SC H E src s pc1 n2 a b s1 I3 W _ _ S. exact (H E src s pc1 n2 a b s1 I3 W S). Qed.
+Lemma spec_HC_sim_weaken : forall SC, spec_HC_sim -> spec_HC_sim_x SC.
+Proof. intros SC H E src s pc1 sh pc2 ab s1 I3 W _ _ S. exact (H E src s pc1 sh pc2 ab s1 I3 W S). Qed.
+Lemma spec_HD_sim_weaken : forall SC, spec_HD_sim -> spec_HD_sim_x SC.
+Proof. intros SC H E src s0 pc1 w vs pn2 w2 s ab s1 I3 W _ _ S. exact (H E src s0 pc1 w vs pn2 w2 s ab s1 I3 W S). Qed.
+Lemma spec_HS_readd_weaken : forall SC KC, spec_HS_readd -> spec_HS_readd_x SC KC.
+Proof.
+  intros SC KC H E s sh i c bij0 src nd u1 sA cA enode0 i0 enode i1 sB sh' bij m sC n'' I3 W _ _ _ S Hh Hc Hp0 Hnd NS0 HA HcA Hen Hi0 HB IB WB _ _ SB.
+  exact (H E s sh i c bij0 src nd u1 sA cA enode0 i0 enode i1 sB sh' bij m sC n'' I3 W S Hh Hc Hp0 Hnd NS0 HA HcA Hen Hi0 HB IB WB SB).
+Qed.
+
 Section Pending.
-  (* ASSUMED: the interface of the union core (as in SoundRebuild.v) *)
+  (* two abstract run invariants (see the comment before spec_HSh_red_x); instances: fun _ => True, or
+     syn_cov / kids_cov *)
+  Variable SC : egraph -> Prop.
+  Variable KC : egraph -> Prop.
+  Hypothesis SC_ext : forall s s', ext s s' -> SC s -> SC s'.
+  (* the interface of the union core (as in SoundRebuild.v; discharged there by
+     SoundBase.ui_spec_sound_closed) *)
   Hypothesis H_ui : forall E fuel, ui_spec_sound E (union_internal fuel).
 
   (* ASSUMED: the interface of shrink_slots (part of the union core): if the slots of `from`
@@ -419,12 +475,12 @@ Section Pending.
   Hypothesis H_shrink : spec_H_shrink.
 
   (* the union performed on the result of pc_congruence (mirrors inv3_pcc_uint) *)
-  Lemma Sound_pcc_uint : forall E s0 s i pc1 pc2 ab s1 b s', inv3 s0 -> ext s0 s -> inv3 s -> Sound E s ->
+  Lemma Sound_pcc_uint : forall E s0 s i pc1 pc2 ab s1 b s', inv3 s0 -> ext s0 s -> inv3 s -> mod4_ok s -> Sound E s ->
     pc_from_src_id s0 i = Ok pc1 -> lcanon s0 (snd pc2) ->
     pc_congruence pc1 pc2 s = Ok (ab, s1) -> sim E s (fst ab) (snd ab) ->
     uint (fst ab) (snd ab) s1 = Ok (b, s') -> Sound E s'.
   Proof.
-    intros E s0 s i pc1 pc2 ab s1 b s' [[Hs0 Hb0] _] E0 I3 S P1 L2 H SIM U.
+    intros E s0 s i pc1 pc2 ab s1 b s' [[Hs0 Hb0] _] E0 I3 M S P1 L2 H SIM U.
     destruct (pc_props s0 i pc1 Hs0 P1) as (L1 & c & Hc & Oc).
     destruct (canon_wf_inj _ _ (proj2 L2)) as [W2 I2].
     destruct (pcc_injective s pc1 pc2 ab s1) as (F1 & F2 & F3 & F4); try assumption.
@@ -439,7 +495,7 @@ Section Pending.
       destruct C as (c2 & Hc2 & _ & Sk). exists c2. rewrite F2. split; [assumption|]. split; [assumption|].
       intros k Hk. apply F4. apply Sk. assumption. }
     pose proof (cu_pc_congruence _ _ _ _ _ H) as CU.
-    exact (H_ui E ui_fuel _ _ s1 b s' Hs1 (Sound_cuR _ _ _ CU S) C1 C2
+    exact (H_ui E ui_fuel _ _ s1 b s' Hs1 (m4_pc_congruence _ _ _ _ _ M H) (Sound_cuR _ _ _ CU S) C1 C2
              (sim_synR _ _ _ _ _ (cuR_synR _ _ CU) SIM) U).
   Qed.
 
@@ -447,22 +503,23 @@ Section Pending.
 
   (* ASSUMED (semantic): the slots of the leader invocation of src that do not occur in the
      re-canonicalised syntactic node of src are redundant *)
-  Hypothesis HSh_red : spec_HSh_red.
+  Hypothesis HSh_red : spec_HSh_red_x SC.
 
-  Theorem Sound_handle_shrink : forall E src s x s', inv3 s -> syn_wf s -> Sound E s ->
+  Theorem Sound_handle_shrink : forall E src s x s', inv3 s -> syn_wf s -> mod4_ok s -> SC s -> Sound E s ->
     handle_shrink_in_upwards_merge src s = Ok (x, s') -> Sound E s'.
   Proof.
-    intros E src s x s' I3 W S H. pose proof I3 as [[Hs Hb] _]. unfold handle_shrink_in_upwards_merge in H.
+    intros E src s x s' I3 W M Sc S H. pose proof I3 as [[Hs Hb] _]. unfold handle_shrink_in_upwards_merge in H.
     apply bind_reads_inv in H. destruct H as (pc1 & P1 & H).
     apply bind_reads_inv in H. destruct H as (n2 & F2 & H).
     apply mbind_inv in H. destruct H as ([a b] & s1 & H1 & H).
-    pose proof (HSh_red E src s pc1 n2 a b s1 I3 W S P1 F2 H1) as RED.
+    pose proof (HSh_red E src s pc1 n2 a b s1 I3 W M Sc S P1 F2 H1) as RED.
+    pose proof (m4_pc_congruence _ _ _ _ _ M H1) as M1.
     pose proof (pc_congruence_fst _ _ _ _ _ H1) as Fa. cbn [fst] in Fa. subst a.
     destruct (pc_props s src pc1 Hs P1) as (L1 & _).
     pose proof (s_pc_congruence _ _ _ _ _ H1) as S1.
     destruct (semn_step3 _ _ S1 (n_pc_congruence _ _ _ _ _ H1) I3) as [Hs1 E1].
     pose proof (cu_pc_congruence _ _ _ _ _ H1) as CU.
-    refine (H_shrink E ui_fuel _ _ s1 x s' Hs1 (syn_wf_cuR _ _ CU W) (Sound_cuR _ _ _ CU S)
+    refine (H_shrink E ui_fuel _ _ s1 x s' Hs1 (syn_wf_cuR _ _ CU W) M1 (Sound_cuR _ _ _ CU S)
               (lcanon_sem _ _ _ (proj1 S1) L1) _ H).
     apply (sim_synR _ _ _ _ _ (cuR_synR _ _ CU)). exact RED.
   Qed.
@@ -471,22 +528,22 @@ Section Pending.
 
   (* ASSUMED (semantic): the two invocations built by pc_congruence from the proven-contains of
      src and of the source id stored with the hashcons hit are related *)
-  Hypothesis HC_sim : spec_HC_sim.
+  Hypothesis HC_sim : spec_HC_sim_x SC.
 
-  Theorem Sound_handle_congruence : forall E src s pc1 x s', inv3 s -> syn_wf s -> Sound E s ->
+  Theorem Sound_handle_congruence : forall E src s pc1 x s', inv3 s -> syn_wf s -> mod4_ok s -> SC s -> Sound E s ->
     pc_from_src_id s src = Ok pc1 -> handle_congruence pc1 s = Ok (x, s') -> Sound E s'.
   Proof.
-    intros E src s pc1 x s' I3 W S P1 H. unfold handle_congruence in H.
+    intros E src s pc1 x s' I3 W M Sc S P1 H. unfold handle_congruence in H.
     apply bind_reads_inv in H. destruct H as (sh & Hsh & H).
     apply bind_reads_inv in H. destruct H as (pc2 & P2 & H).
     apply mbind_inv in H. destruct H as (ab & s1 & H1 & H).
     apply mbind_inv in H. destruct H as (b & s2 & H2 & H). inversion H; subst x s2; clear H.
-    pose proof (HC_sim E src s pc1 sh pc2 ab s1 I3 W S P1 Hsh P2 H1) as SIM.
+    pose proof (HC_sim E src s pc1 sh pc2 ab s1 I3 W M Sc S P1 Hsh P2 H1) as SIM.
     unfold pc_from_shape in P2. destruct (na_get (hashcons s) (fst sh)) as [i2|]; [|discriminate].
     destruct (get_class s i2) as [c2|]; cbn [bind] in P2; [|discriminate].
     destruct (na_get (c_nodes c2) (fst sh)) as [[bj src2]|]; [|discriminate].
     destruct (pc_props s src2 pc2 (proj1 (proj1 I3)) P2) as (L2 & _).
-    exact (Sound_pcc_uint E s s src pc1 pc2 ab s1 b s' I3 (ext_refl s) I3 S P1 L2 H1 SIM H2).
+    exact (Sound_pcc_uint E s s src pc1 pc2 ab s1 b s' I3 (ext_refl s) I3 M S P1 L2 H1 SIM H2).
   Qed.
 
   (* ---------------- determine_self_symmetries ---------------- *)
@@ -494,68 +551,71 @@ Section Pending.
   (* ASSUMED (semantic): a group variant pn2 of the canonical syntactic node of src with the same
      weak shape yields a symmetry of the leader invocation (pc1, the variants and the weak shapes
      are computed in s0; the congruence is built in a later state s) *)
-  Hypothesis HD_sim : spec_HD_sim.
+  Hypothesis HD_sim : spec_HD_sim_x SC.
 
-  Theorem Sound_determine_self_symmetries : forall E src s x s', inv3 s -> syn_wf s -> Sound E s ->
+  Theorem Sound_determine_self_symmetries : forall E src s x s', inv3 s -> syn_wf s -> mod4_ok s -> SC s -> Sound E s ->
     determine_self_symmetries src s = Ok (x, s') -> Sound E s'.
   Proof.
-    intros E src s x s' I3 W S H. unfold determine_self_symmetries in H.
+    intros E src s x s' I3 W M Sc S H. unfold determine_self_symmetries in H.
     apply bind_reads_inv in H. destruct H as (pc1 & P1 & H).
     apply mbind_inv in H. destruct H as (w & s0 & Hw & H). apply lift_inv in Hw. destruct Hw as [Hw ->].
     cbv zeta in H. apply bind_reads_inv in H. destruct H as (vs & Hvs & H).
     destruct (pc_props s src pc1 (proj1 (proj1 I3)) P1) as (L1 & _).
-    assert (G : forall l s1 x s', (forall p, In p l -> In p vs) -> inv3 s1 -> ext s s1 -> Sound E s1 ->
+    assert (G : forall l s1 x s', (forall p, In p l -> In p vs) -> inv3 s1 -> ext s s1 -> mod4_ok s1 -> Sound E s1 ->
               iterM (fun pn2 => dom w2 <- Model.lift (wshape pn2);
                        if node_eqb (fst w) (fst w2) then
                          dom ab <- pc_congruence pc1 (pn2, snd pc1); dom _ <- uint (fst ab) (snd ab); ret tt
                        else ret tt) l s1 = Ok (x, s') -> Sound E s').
-    { clear H x s'. induction l as [|pn2 t IH]; intros s1 x s' Sub Hs1 E01 S1 H; cbn [iterM] in H.
+    { clear H x s'. induction l as [|pn2 t IH]; intros s1 x s' Sub Hs1 E01 M1 S1 H; cbn [iterM] in H.
       - inversion H; subst. exact S1.
       - apply mbind_inv in H. destruct H as (u & s2 & H1 & H).
-        assert (S12 : inv3 s2 /\ ext s1 s2 /\ Sound E s2).
+        assert (S12 : inv3 s2 /\ ext s1 s2 /\ mod4_ok s2 /\ Sound E s2).
         { apply mbind_inv in H1. destruct H1 as (w2 & s0 & Hw2 & H1). apply lift_inv in Hw2. destruct Hw2 as [Hw2 ->].
           destruct (node_eqb (fst w) (fst w2)) eqn:EQ;
-            [|inversion H1; subst; split; [assumption|split; [apply ext_refl|assumption]]].
+            [|inversion H1; subst; split; [assumption|split; [apply ext_refl|split; assumption]]].
           apply mbind_inv in H1. destruct H1 as (ab & s3 & H3 & H1).
           apply mbind_inv in H1. destruct H1 as (b & s4 & H4 & H1). inversion H1; subst u s4; clear H1.
           destruct (inv3_pcc_uint s s1 src pc1 (pn2, snd pc1) ab s3 b s2 I3 E01 Hs1 P1 L1 H3 H4) as [A B].
           split; [exact A|]. split; [exact B|].
-          pose proof (HD_sim E src s pc1 w vs pn2 w2 s1 ab s3 I3 W S P1 Hw Hvs (Sub _ (or_introl eq_refl)) Hw2 EQ E01 H3) as SIM.
-          exact (Sound_pcc_uint E s s1 src pc1 (pn2, snd pc1) ab s3 b s2 I3 E01 Hs1 S1 P1 L1 H3
+          split; [exact (m4_uint _ _ _ _ _ (m4_pc_congruence _ _ _ _ _ M1 H3) H4)|].
+          pose proof (HD_sim E src s pc1 w vs pn2 w2 s1 ab s3 I3 W M Sc S P1 Hw Hvs (Sub _ (or_introl eq_refl)) Hw2 EQ E01 H3) as SIM.
+          exact (Sound_pcc_uint E s s1 src pc1 (pn2, snd pc1) ab s3 b s2 I3 E01 Hs1 M1 S1 P1 L1 H3
                    (sim_ext _ _ _ _ _ E01 SIM) H4). }
-        destruct S12 as (Hs2' & E12 & S2).
-        exact (IH s2 x s' (fun p Hp => Sub p (or_intror Hp)) Hs2' (ext_trans _ _ _ E01 E12) S2 H). }
-    exact (G vs s x s' (fun p Hp => Hp) I3 (ext_refl s) S H).
+        destruct S12 as (Hs2' & E12 & M2 & S2).
+        exact (IH s2 x s' (fun p Hp => Sub p (or_intror Hp)) Hs2' (ext_trans _ _ _ E01 E12) M2 S2 H). }
+    exact (G vs s x s' (fun p Hp => Hp) I3 (ext_refl s) M S H).
   Qed.
 
   (* ---------------- the loop ---------------- *)
 
-  Lemma Sound_hp_loop : forall E fuel src enode i s r s', inv3 s -> syn_wf s -> Sound E s ->
+  Lemma Sound_hp_loop : forall E fuel src enode i s r s', inv3 s -> syn_wf s -> mod4_ok s -> SC s -> Sound E s ->
     hp_loop fuel src enode i s = Ok (r, s') -> Sound E s'.
   Proof.
-    intros E. induction fuel as [|f IH]; intros src enode i s r s' I3 W S H; cbn [hp_loop] in H; [discriminate|].
+    intros E. induction fuel as [|f IH]; intros src enode i s r s' I3 W M Sc S H; cbn [hp_loop] in H; [discriminate|].
     destruct (sset_subset (values (am i)) (slots enode)) eqn:Eq.
     - inversion H; subst r s'. exact S.
     - apply mbind_inv in H. destruct H as (u & s1 & H1 & H).
       destruct (inv3_handle_shrink _ _ _ _ H1 I3) as [I1 E1].
-      pose proof (Sound_handle_shrink E _ _ _ _ I3 W S H1) as S1.
+      pose proof (Sound_handle_shrink E _ _ _ _ I3 W M Sc S H1) as S1.
+      pose proof (m4_handle_shrink _ _ _ _ M H1) as M1.
       apply bind_reads_inv in H. destruct H as (enode' & He & H).
       apply bind_reads_inv in H. destruct H as (i' & Hi & H).
-      exact (IH src enode' i' s1 r s' I1 (syn_wf_ext _ _ E1 W) S1 H).
+      exact (IH src enode' i' s1 r s' I1 (syn_wf_ext _ _ E1 W) M1 (SC_ext _ _ E1 Sc) S1 H).
   Qed.
 
   (* the semantic loop invariant: the node, written in the name space of the leader invocation,
      denotes the class of the invocation *)
-  Lemma nsound_hp_loop : forall E fuel src enode i s r s', inv3 s -> syn_wf s -> Sound E s -> lcanon s i ->
+  Lemma nsound_hp_loop : forall E fuel src enode i s r s', inv3 s -> syn_wf s -> mod4_ok s -> SC s -> Sound E s -> lcanon s i ->
     Forall (covers s) (app_occ enode) -> nsound E s i enode ->
     hp_loop fuel src enode i s = Ok (r, s') -> nsound E s' (snd r) (fst r) /\ Forall (covers s') (app_occ (fst r)).
   Proof.
-    intros E. induction fuel as [|f IH]; intros src enode i s r s' I3 W S L Cv NS H; cbn [hp_loop] in H; [discriminate|].
+    intros E. induction fuel as [|f IH]; intros src enode i s r s' I3 W M Sc S L Cv NS H; cbn [hp_loop] in H; [discriminate|].
     destruct (sset_subset (values (am i)) (slots enode)) eqn:Eq.
     - inversion H; subst r s'. split; assumption.
     - apply mbind_inv in H. destruct H as (u & s1 & H1 & H).
       destruct (inv3_handle_shrink _ _ _ _ H1 I3) as [I1 E1].
-      pose proof (Sound_handle_shrink E _ _ _ _ I3 W S H1) as S1.
+      pose proof (Sound_handle_shrink E _ _ _ _ I3 W M Sc S H1) as S1.
+      pose proof (m4_handle_shrink _ _ _ _ M H1) as M1.
       pose proof (syn_wf_ext _ _ E1 W) as W1.
       apply bind_reads_inv in H. destruct H as (enode' & He & H).
       apply bind_reads_inv in H. destruct H as (i' & Hi & H).
@@ -567,12 +627,12 @@ Section Pending.
       pose proof (nsound_find_app E s1 i i' enode Hs1 S1 Ci Hi (nsound_ext E s s1 i enode E1 NS)) as NS2.
       destruct (nsound_find_enode E s1 i' enode enode' Hs1 W1 S1 Cv1 He
                   (proj2 (canon_wf_inj _ _ (proj2 L'))) (canon_keys_SS s1 i' Hs1 (proj2 L')) NS2) as [NS3 Cv'].
-      exact (IH src enode' i' s1 r s' I1 W1 S1 L' Cv' NS3 H).
+      exact (IH src enode' i' s1 r s' I1 W1 M1 (SC_ext _ _ E1 Sc) S1 L' Cv' NS3 H).
   Qed.
 
   (* LINK A of section 3, proved; new premise: the children of the removed stored node are covered *)
   Theorem Link_loop_proved : forall E s sh i c bij0 src nd u1 sA cA enode0 i0 enode i1 sB,
-    inv3 s -> syn_wf s -> Sound E s ->
+    inv3 s -> syn_wf s -> mod4_ok s -> SC s -> Sound E s ->
     na_get (hashcons s) sh = Some i -> get_class s i = Ok c -> na_get (c_nodes c) sh = Some (bij0, src) ->
     apply_slotmap false bij0 sh = Ok nd -> nsound E s (idapp s i) nd ->
     Forall (covers s) (app_occ nd) ->
@@ -581,7 +641,8 @@ Section Pending.
     hp_loop 100 src enode0 i0 sA = Ok ((enode, i1), sB) ->
     nsound E sB i1 enode /\ Forall (covers sB) (app_occ enode).
   Proof.
-    intros E s sh i c bij0 src nd u1 sA cA enode0 i0 enode i1 sB I3 W S Hh Hc Hp0 Hnd NS0 Cv HA HcA Hen Hi0 HB.
+    intros E s sh i c bij0 src nd u1 sA cA enode0 i0 enode i1 sB I3 W M Sc S Hh Hc Hp0 Hnd NS0 Cv HA HcA Hen Hi0 HB.
+    pose proof (m4_raw_remove _ _ _ _ _ M HA) as MA.
     assert (IA : inv3 sA /\ ext s sA).
     { destruct I3 as [Hs2 HN]. destruct (semR_step2 _ _ (s_raw_remove _ _ _ _ _ HA) Hs2) as [HsA EA].
       split; [|exact EA]. split; [exact HsA|eapply nodes_raw_remove; eauto]. }
@@ -606,13 +667,13 @@ Section Pending.
     pose proof (nsound_find_app E sA _ i0 nd HsA SA C0 Hi0 NS2) as NS3.
     destruct (nsound_find_enode E sA i0 nd enode0 HsA WA SA CvA Hen
                 (proj2 (canon_wf_inj _ _ (proj2 L0))) (canon_keys_SS sA i0 HsA (proj2 L0)) NS3) as [NS4 Cv0].
-    exact (nsound_hp_loop E 100 src enode0 i0 sA (enode, i1) sB IA WA SA L0 Cv0 NS4 HB).
+    exact (nsound_hp_loop E 100 src enode0 i0 sA (enode, i1) sB IA WA MA (SC_ext _ _ EA Sc) SA L0 Cv0 NS4 HB).
   Qed.
 
   (* HS_readd from the renaming step alone (plus: the children of the removed node are covered) *)
   Theorem HS_readd_reduced : forall E, link_rename E ->
     forall s sh i c bij0 src nd u1 sA cA enode0 i0 enode i1 sB sh' bij m sC n'',
-    inv3 s -> syn_wf s -> Sound E s ->
+    inv3 s -> syn_wf s -> mod4_ok s -> SC s -> Sound E s ->
     na_get (hashcons s) sh = Some i -> get_class s i = Ok c -> na_get (c_nodes c) sh = Some (bij0, src) ->
     apply_slotmap false bij0 sh = Ok nd -> nsound E s (idapp s i) nd ->
     Forall (covers s) (app_occ nd) ->
@@ -626,9 +687,9 @@ Section Pending.
     nsound E sB (idapp sB (aid i1)) n''.
   Proof.
     intros E LR s sh i c bij0 src nd u1 sA cA enode0 i0 enode i1 sB sh' bij m sC n''
-      I3 W S Hh Hc Hp0 Hnd NS0 Cv HA HcA Hen Hi0 HB IB WB SB Ht _ Hm Hn.
+      I3 W M Sc S Hh Hc Hp0 Hnd NS0 Cv HA HcA Hen Hi0 HB IB WB SB Ht _ Hm Hn.
     destruct (Link_loop_proved E s sh i c bij0 src nd u1 sA cA enode0 i0 enode i1 sB
-                I3 W S Hh Hc Hp0 Hnd NS0 Cv HA HcA Hen Hi0 HB) as [NS1 CvB].
+                I3 W M Sc S Hh Hc Hp0 Hnd NS0 Cv HA HcA Hen Hi0 HB) as [NS1 CvB].
     assert (IA : inv3 sA).
     { destruct I3 as [Hs2 HN]. destruct (semR_step2 _ _ (s_raw_remove _ _ _ _ _ HA) Hs2) as [HsA EA].
       split; [exact HsA|eapply nodes_raw_remove; eauto]. }
@@ -647,14 +708,14 @@ Section Pending.
 
   (* ASSUMED (semantic; section 3 below reduces it further): the entry written by the None branch
      satisfies I2.  All premises are facts available at that point of the walk. *)
-  Hypothesis HS_readd : spec_HS_readd.
+  Hypothesis HS_readd : spec_HS_readd_x SC KC.
 
   (* ---------------- handle_pending ---------------- *)
 
-  Theorem Sound_handle_pending : forall E sh ty s x s', inv3 s -> syn_wf s -> Sound E s ->
+  Theorem Sound_handle_pending : forall E sh ty s x s', inv3 s -> syn_wf s -> mod4_ok s -> SC s -> KC s -> Sound E s ->
     handle_pending sh ty s = Ok (x, s') -> Sound E s'.
   Proof.
-    intros E sh ty s x s' I3 W S H. unfold handle_pending in H.
+    intros E sh ty s x s' I3 W M Sc Kc S H. unfold handle_pending in H.
     apply bind_reads_inv in H. destruct H as (i & Hi & H). cbv beta in Hi.
     destruct (na_get (hashcons s) sh) as [i'|] eqn:Hh; [|discriminate]. inversion Hi; subst i'; clear Hi.
     destruct (negb ty); [inversion H; subst; exact S|].
@@ -669,6 +730,7 @@ Section Pending.
       split; [|exact EA]. split; [exact HsA|eapply nodes_raw_remove; eauto]. }
     destruct IA as [IA EA].
     pose proof (Sound_raw_remove E _ _ _ _ _ S HA) as SA.
+    pose proof (m4_raw_remove _ _ _ _ _ M HA) as MA.
     pose proof (syn_wf_ext _ _ EA W) as WA.
     apply bind_reads_inv in H. destruct H as (sl & Hsl & H). cbv zeta in H.
     apply bind_reads_inv in H. destruct H as (enode0 & Hen & H).
@@ -678,13 +740,15 @@ Section Pending.
     pose proof (covers_lcanon sA _ i0 (proj1 (proj1 IA)) (covers_identity sA i cA HcA) Hi0) as L0.
     apply mbind_inv in H. destruct H as ([enode i1] & sB & HB & H).
     destruct (inv3_hp_loop _ _ _ _ _ _ _ IA L0 (ex_intro _ nd Hen) HB) as (IB & EB & L1 & (n0 & Fn) & Sub). cbn [fst snd] in *.
-    pose proof (Sound_hp_loop E _ _ _ _ _ _ _ IA WA SA HB) as SB.
+    pose proof (SC_ext _ _ EA Sc) as ScA. pose proof (SC_ext _ _ EB ScA) as ScB.
+    pose proof (Sound_hp_loop E _ _ _ _ _ _ _ IA WA MA ScA SA HB) as SB.
+    destruct (hp_loop_m4 _ _ _ _ _ _ _ _ MA (find_k4w _ _ _ MA Hi0) HB) as [MB [K1m W1m]].
     pose proof (syn_wf_ext _ _ EB WA) as WB.
     apply bind_reads_inv in H. destruct H as (t & Ht & H).
     apply bind_reads_inv in H. destruct H as (lk & Hlk & H).
     destruct lk as [hit|].
     - apply bind_reads_inv in H. destruct H as (pc & P & H).
-      exact (Sound_handle_congruence E _ _ _ _ _ IB WB SB P H).
+      exact (Sound_handle_congruence E _ _ _ _ _ IB WB MB ScB SB P H).
     - destruct t as [sh' bij]. pose proof Ht as Ht0.
       apply mbind_inv in H. destruct H as (m & sC & Hm & H).
       change (fill_fresh (values bij) (inv (am i1)) sB = Ok (m, sC)) in Hm. cbv zeta in H.
@@ -721,13 +785,23 @@ Section Pending.
       { destruct IC as [Hs2 HN]. destruct (semR_step2 _ _ (s_raw_add _ _ _ _ _ _ HD) Hs2) as [HsD ED].
         split; [|exact ED]. split; [exact HsD|]. eapply nodes_raw_add; [exact HN| |exact EO|exact HD]. exact HcB. }
       destruct ID as [ID ED].
+      pose proof (p4_fill_fresh _ _ _ _ _ Hm0 MB) as MC.
+      assert (Vm : forall k v, get m k = Some v -> v mod 4 = 1).
+      { apply (fill_fresh_m4 _ _ _ _ _ (inverse_wf (am i1)) MB) with (2 := Hm0).
+        intros k v G. apply get_inverse_sound in G; [|exact W1m]. apply K1m. congruence. }
+      assert (Q : Q4 (sh', (bij ** m, src_id))).
+      { split; cbn [fst snd].
+        - intros y Hy. apply (shape_all_occ_mod4 _ _ _ Ht). apply binders_all_occ. exact Hy.
+        - intros k v G. apply compose_vals in G. destruct G as (y & G). eapply Vm; eauto. }
+      pose proof (p4_raw_add _ _ _ _ Q _ _ _ HD MC) as MD.
       assert (SD : Sound E sD).
       { refine (Sound_raw_add E _ _ _ _ _ _ _ (Sound_set_ctr E sB cC SB) _ HD). intros n'' Hn.
         change (idapp (set_ctr sB cC) (aid i1)) with (idapp sB (aid i1)).
         apply (nsound_synR E sB); [apply cuR_synR; split; reflexivity|].
         exact (HS_readd E s sh i c bij0 src_id nd u1 sA cA enode0 i0 enode i1 sB sh' bij m (set_ctr sB cC) n''
-                 I3 W S Hh Hc Hp0 Hnd NS0 HA HcA Hen Hi0 HB IB WB SB Ht0 Hlk Hm0 Hn). }
-      exact (Sound_determine_self_symmetries E _ _ _ _ ID (syn_wf_ext _ _ (ext_trans _ _ _ EC ED) WB) SD H).
+                 I3 W M Sc Kc S Hh Hc Hp0 Hnd NS0 HA HcA Hen Hi0 HB IB WB MB ScB SB Ht0 Hlk Hm0 Hn). }
+      exact (Sound_determine_self_symmetries E _ _ _ _ ID (syn_wf_ext _ _ (ext_trans _ _ _ EC ED) WB) MD
+               (SC_ext _ _ (ext_trans _ _ _ EC ED) ScB) SD H).
   Qed.
 End Pending.
 
@@ -918,6 +992,13 @@ Eval vm_compute in (keys_okb ex_state, srcs_okb ex_state, pcs_okb ex_state, keys
 (* ====================================================================== *)
 (* 5. summary                                                              *)
 (* ======================================================================
+   INTERFACE (third round): every statement of Section Pending carries the structural run invariant
+   mod4_ok (SoundUnion.v) of its pre-state, because the proved union core (`ui_spec_sound`, SoundBase.v)
+   and `spec_H_shrink` need it; it is preserved by every step (m4_* of SoundBase.v, p4 lemmas of
+   SoundUnion.v).  The four semantic hypotheses are used in the weaker forms (mod4_ok of
+   the states, and two abstract run invariants SC / KC, as extra premises: `spec_*_x`);
+   `spec_*_weaken` derives them from `spec_*`.  H_ui and H_shrink are
+   discharged in SoundRebuild.v (ui_spec_sound_closed, H_shrink_closed).
    PROVED (closed): synR frame lemmas (syn_t/clsT/SS/sim/NodeT/nsound stable along sem_eq, ext and
    cuR steps, both directions), Sound_nodes, raw_remove_nodes, raw_add_nodes, Sound_raw_remove,
    Sound_raw_add, sim_idapp_cidapp.
